@@ -20,7 +20,7 @@ CONSTANTS
   Ids,       \* event ids used by publish / unsubscribe
   EvIds,     \* events that may be published
   InitRegs,  \* set of possible initial registries (sequences over 1..Len(Pool))
-  SelKeys,   \* function: selection id -> sequence of <<responseKey, fieldName, condition>>
+  SelKeys,   \* function: selection id -> sequence of <<responseKey, fieldName, condition, form>>
   EvVals     \* function: event id -> [fieldName -> value]
 
 Subs == 1..Len(Pool)
@@ -30,7 +30,8 @@ Range(f) == {f[i] : i \in DOMAIN f}
 Match(s, id) == Pool[s].pat = "*" \/ Pool[s].pat = id
 
 \* "the subscriber's own selection set applied to the event"
-\* A selection is <<responseKey, fieldName, condition>>: "" always there, "skip" carries @skip(if: $hide), "incl"
+\* A selection is <<responseKey, fieldName, condition, form>> (form: where the directive is written - on the field, on an
+\* inline fragment or on the spread of a named fragment around it; it makes no difference): "" always there, "skip" carries @skip(if: $hide), "incl"
 \* @include(if: $hide), where $hide is a variable of the SUBSCRIBER'S request (given with it or defaulted there).
 Shown(s, k) == k[3] = "" \/ (k[3] = "skip" /\ ~Pool[s].hide) \/ (k[3] = "incl" /\ Pool[s].hide)
 MsgOf(s, ev) ==
